@@ -320,6 +320,8 @@ class CertificateAuthConfig:
     """
 
     path_rules: list[CertificateAuthPathRule] = field(default_factory=list)
+    # Names under which a directory request is answered with a file of that directory
+    index_names: list[str] = field(default_factory=lambda: ["index.gmi", "index.gemini"])
 
 
 class CertificateAuth:
@@ -406,9 +408,24 @@ class CertificateAuth:
         # Extract path from URL
         path = self._extract_path(request_url)
 
-        # Find matching rule (first match wins)
-        rule = self._find_matching_rule(path)
+        # A request for a directory is answered with the directory's index file: the
+        # rules of that file's own location apply as well
+        for location in [
+            path,
+            *(f"{path.rstrip('/')}/{n}" for n in self.config.index_names),
+        ]:
+            allow, response = self._judge(
+                self._find_matching_rule(location), client_cert_fingerprint
+            )
+            if not allow:
+                return allow, response
+        return True, None
 
+    @staticmethod
+    def _judge(
+        rule: CertificateAuthPathRule | None, client_cert_fingerprint: str | None
+    ) -> tuple[bool, str | None]:
+        """Apply one rule (or none) to the presented certificate."""
         if rule is None:
             # No rule matches - allow without cert
             return True, None
